@@ -717,8 +717,18 @@ func delayPart(t *testing.T, rep *kit.Report) {
 					return
 				}
 				verdict(map[string]time.Duration{k: d})
-				if kit.Thorough() {
+				// pairs (thorough): both points inside pkg/rpc (the producers
+				// and consumers of diffs); all pairs of all points would be
+				// ~10^7 executions per case
+				if kit.Thorough() && strings.Contains(k, "@rpc") {
 					for _, k2 := range keys[i+1:] {
+						if !strings.Contains(k2, "@rpc") {
+							continue
+						}
+						if rep.OverBudget() {
+							rep.NotExhaustive("budget (delay part, pairs)")
+							return
+						}
 						verdict(map[string]time.Duration{k: d, k2: time.Microsecond})
 					}
 				}
